@@ -69,3 +69,19 @@ Theorem C10_expressions_bound_at_their_position :
   forall meta i s m, Emb meta i s m -> forall n x, In (n, x) (exps m) -> exists a, In (a, x) (pairs m).
 Proof. exact emb_exps_bound_at_position. Qed.
 Print Assumptions C10_expressions_bound_at_their_position.
+
+(* a pattern whose concrete content (a literal or identifier of a plain-value field of a concrete node) occurs
+   nowhere in the program yields no match *)
+From Pedal Require Import proof.C10_Content.
+
+Theorem C10_witness_has_the_required_content :
+  forall m i s, Wit m i s -> forall p, In p (required i) -> In p (tree_prims s).
+Proof. exact witness_has_the_content. Qed.
+Print Assumptions C10_witness_has_the_required_content.
+
+Theorem C10_no_match_without_the_content :
+  forall pattern student p,
+  In p (required (trim_root pattern)) -> ~ In p (tree_prims (trim_root student)) ->
+  find_matches pattern student = [].
+Proof. exact no_match_without_the_content. Qed.
+Print Assumptions C10_no_match_without_the_content.
